@@ -76,3 +76,9 @@ func vCbLog(f any, name string) []string    { panic("verif: ghost log is not exe
 func vCbLogOld(f any, name string) []string { panic("verif: ghost log is not executable") }
 func vCbOK(f any) bool                      { panic("verif: ghost state is not executable") }
 func vCbOKOld(f any) bool                   { panic("verif: ghost state is not executable") }
+
+// vHas: k is a key of map m.
+func vHas[K comparable, V any](m map[K]V, k K) bool {
+	_, ok := m[k]
+	return ok
+}
